@@ -21,9 +21,11 @@ def setup(repo):
 ANCHORS = {
     "gregorian": ["2016-01-31T00:00:00Z", "2016-02-29T12:30:00+05:30", "2015-12-31T23:59:59Z",
                   "2016-08-01T00:59:00Z", "2020-366T06:00:00-00:30", "2020-W53-7T00:00:00Z",
-                  "2019-03-31T00:00:00Z", "-0001-01-30T00:00:00Z" if False else "0000-01-30T00:00:00Z"],
+                  "2019-03-31T00:00:00Z", "-0001-01-30T00:00:00Z" if False else "0000-01-30T00:00:00Z",
+                  # month ends whose local day is not the UTC day (either side)
+                  "2020-01-31T22:00:00-05:00", "2016-03-31T01:00:00+03:00"],
     "360day": ["2016-01-30T00:00:00Z", "2016-02-30T12:30:00+05:30", "2015-12-30T23:59:59Z",
-               "2016-360T06:00:00Z", "2016-W51-1T00:00:00Z"],
+               "2016-360T06:00:00Z", "2016-W51-1T00:00:00Z", "2016-01-30T22:00:00-05:00"],
     "365day": ["2016-01-31T00:00:00Z", "2016-02-28T12:30:00Z", "2015-365T23:59:59Z"],
     "366day": ["2016-01-31T00:00:00Z", "2016-02-29T12:30:00Z", "2015-366T23:59:59Z"],
 }
@@ -108,7 +110,7 @@ def check_c12(tier, seed, repo):
                             if reps != 1 and (x + step) != y:
                                 bad = "%s is not %s + interval" % (_S(y), _S(x))
                                 break
-                if bad and len(fails) < 40:
+                if bad and len(fails) < 400:
                     fails.append({"id": "%s|%s" % (mode, key), "input": {
                         "mode": mode, "anchor": key[0], "interval": key[1],
                         "repetitions": key[2], "notation": key[3], "kind": kind},
@@ -171,7 +173,7 @@ def check_c13(tier, seed, repo):
                             continue
                         if got != want:
                             bad = "get_first_after(%s) = %s, not %s" % (_S(q), _S(got), _S(want))
-                if bad and len(fails) < 40:
+                if bad and len(fails) < 400:
                     fails.append({"id": "%s|%s" % (mode, key), "input": {
                         "mode": mode, "anchor": a, "interval": iv, "repetitions": reps,
                         "notation": fmt, "kind": kind}, "observed": bad})
@@ -228,7 +230,7 @@ def check_c14(tier, seed, repo):
                         bad = "parse(str(r)) != r for %s" % str(r)
                 except Exception as e:
                     bad = "parse(str(r)) raised %s for %s" % (type(e).__name__, str(r))
-                if bad and len(fails) < 40:
+                if bad and len(fails) < 400:
                     fails.append({"id": "%s|%s" % (mode, key), "input": {
                         "mode": mode, "anchor": a, "interval": iv, "repetitions": reps,
                         "notation": fmt, "kind": kind}, "observed": bad})
